@@ -63,23 +63,27 @@ void *vp_old_ptr(const void *cur_ptr); /* address inside a registered block -> s
 #include <stdlib.h>
 #include <string.h>
 #define VP_NREG 6
+typedef unsigned long long vp_w64;
 static void *vp_reg_hdr[VP_NREG];
-static char *vp_reg_blk[VP_NREG];
-static size_t vp_reg_n[VP_NREG];
-static char *vp_reg_old[VP_NREG];
+static vp_w64 *vp_reg_blk[VP_NREG];
+static size_t vp_reg_n[VP_NREG]; /* words */
+static vp_w64 *vp_reg_old[VP_NREG];
 static int vp_reg_cnt;
 static inline void vp_register(void *hdr, void *blk, size_t nbytes) {
   vp_reg_hdr[vp_reg_cnt] = hdr;
-  vp_reg_blk[vp_reg_cnt] = (char *)blk;
-  vp_reg_n[vp_reg_cnt]   = nbytes;
+  vp_reg_blk[vp_reg_cnt] = (vp_w64 *)blk;
+  vp_reg_n[vp_reg_cnt]   = nbytes / sizeof(vp_w64);
   vp_reg_cnt++;
 }
+/* shadow copies are word-typed objects filled by an array copy (a byte-typed memcpy target makes every
+ * later word read a byte-extract over the whole block) */
 static inline void vp_snapshot_all(void) {
-  for (int k = 0; k < vp_reg_cnt; ++k) {
-    vp_reg_old[k] = malloc(vp_reg_n[k]);
-    __CPROVER_assume(vp_reg_old[k] != NULL);
-    memcpy(vp_reg_old[k], vp_reg_blk[k], vp_reg_n[k]);
-  }
+  for (int k = 0; k < VP_NREG; ++k)
+    if (k < vp_reg_cnt) {
+      vp_reg_old[k] = malloc(sizeof(vp_w64) * vp_reg_n[k]);
+      __CPROVER_assume(vp_reg_old[k] != NULL);
+      __CPROVER_array_copy(vp_reg_old[k], vp_reg_blk[k]);
+    }
 }
 #define VP_PRE(c) __CPROVER_assume(c)
 #define VP_SNAPSHOT() vp_snapshot_all()
